@@ -127,6 +127,12 @@ func (o *orC01) onSQL(ev *SQLEvent) {
 	if !(ev.Applied && ev.Query == "SET GLOBAL read_only = 0" && m.isDaemon(ev.Src) && ev.Dst != m.master) {
 		return
 	}
+	if !ev.Effective {
+		// the node was writable already (e.g. by a statement of an earlier attempt that was
+		// executed late): nothing is made writable here
+		m.probe("c01_promotion_statement_without_effect")
+		return
+	}
 	it := ev.It
 	if it == nil {
 		m.violate("C01", "promotion_outside_iteration", "promote-outside-state-handler", fmt.Sprintf("%s made %s writable outside any state handler", ev.Src, ev.Dst))
